@@ -231,6 +231,13 @@ def r18_5(ctx, rep, roles, m):
             ok = key[0] == "proj" and val[0] == "proj" and key[1] == val[1] and key[2][2] == "0" and val[2][2] == "1"
             rep.obligation(ok, "C18/R18.5/pairing", "set_versioned_value gets key %s and value %s (not one supplied pair)" % (
                 sym.fmt(key)[:50], sym.fmt(val)[:50]), where(m.fn), sample="insert(pair.0, pair.1)")
+            # every supplied pair is visited: the pair comes straight from the supplied iterator (no take_while / filter / skip)
+            kr = T.resolve_locals(m.eng, row.store, key)
+            names = {sym.strip_all_generics(x[1][6:] if x[1].startswith("havoc:") else x[1]).split("::")[-1] for x in T.subterms(kr) if x[0] == "call"}
+            from_supplied = any(x == ("obj", ("S", "kvs")) for x in T.subterms(kr))
+            rep.obligation(from_supplied and names <= {"next", "into_iter"}, "C18/R18.5/supplied-iteration",
+                           "the inserted pair reaches the insert through %s (expected: the supplied iterator itself, every element)" % sorted(names - {"next", "into_iter"}),
+                           where(m.fn), sample="pairs come from the supplied iterator without adaptor")
             # the key is removed from the previous-key set before the insert
             rm = [x for x in row.calls() if sym.strip_all_generics(x[1]).endswith("HashSet::remove") and row.events.index(x) < row.events.index(e)]
             rep.obligation(bool(rm), "C18/R18.5/previous-keys", "a supplied key is not taken out of the previous-key set", where(m.fn),
